@@ -1227,6 +1227,7 @@ var (
 	baseByPath   map[string]*base
 	harvestType  map[string][]json.RawMessage
 	harvestField map[string][]string
+	allIdentities []json.RawMessage // every distinct tax identity of the corpus (not thinned)
 )
 
 func excluded(s site) bool {
@@ -1359,6 +1360,7 @@ func loadBases() {
 			bases = append(bases, b)
 			baseByPath[b.Path] = b
 		}
+		allIdentities = harvestType["tax.Identity"]
 		// keep the pools small and spread over the whole corpus
 		for k, l := range harvestType {
 			harvestType[k] = thin(l, 48)
@@ -1788,6 +1790,35 @@ var catWeights = []struct {
 	{"slice", 8}, {"struct", 8}, {"string", 5}, {"num", 3}, {"misc", 1}, {"absent", 6},
 }
 
+// regimeCodeSets lists, for every regime that has alternative country codes,
+// its own code followed by the alternatives.
+func regimeCodeSets() [][]string {
+	var out [][]string
+	for _, r := range tax.AllRegimeDefs() {
+		if len(r.AltCountryCodes) == 0 {
+			continue
+		}
+		set := []string{string(r.Country)}
+		for _, a := range r.AltCountryCodes {
+			set = append(set, string(a))
+		}
+		out = append(out, set)
+	}
+	return out
+}
+
+// relabel returns the tax identity with another country code.
+func relabel(raw json.RawMessage, country string) (json.RawMessage, string) {
+	var id map[string]any
+	if json.Unmarshal(raw, &id) != nil {
+		return raw, ""
+	}
+	old, _ := id["country"].(string)
+	id["country"] = country
+	out, _ := json.Marshal(id)
+	return out, old
+}
+
 func genOp(t *rapid.T, b *base) Op {
 	// category first, so that constrained positions are not drowned by the
 	// many plain strings and amounts of a document
@@ -1827,6 +1858,13 @@ func genOp(t *rapid.T, b *base) Op {
 	case "struct":
 		if s.Present && s.Optional && rapid.IntRange(0, 3).Draw(t, "drop") == 0 {
 			return Op{Op: "remove", Ptr: s.Ptr, Kind: "struct:unset"}
+		}
+		if s.GoType == "tax.Identity" && len(allIdentities) > 0 && rapid.IntRange(0, 2).Draw(t, "relabel") == 0 {
+			// a tax identity of the corpus under another country code (the same
+			// regime may answer to several codes)
+			loadPools()
+			v, _ := relabel(pick(t, "identity", allIdentities), pick(t, "country", taxPool))
+			return Op{Op: "set", Ptr: s.Ptr, Value: v, Kind: "struct:relabel:tax.Identity"}
 		}
 		if h := harvestType[s.GoType]; len(h) > 0 {
 			return Op{Op: "set", Ptr: s.Ptr, Value: pick(t, "transplant", h), Kind: "struct:transplant:" + s.GoType}
@@ -1948,6 +1986,9 @@ func judgeMutation(c MutCase, o *vh.Obs) {
 		}
 	}
 	if why != "" {
+		if os.Getenv("C11_DEBUG_WHY") != "" {
+			fmt.Fprintf(os.Stderr, "C11-DEBUG rejected by the library: %s\n", why)
+		}
 		o.Discard() // the library does not accept the mutated document: outside the domain
 		return
 	}
@@ -2022,7 +2063,11 @@ func enumFields(yield func(MutCase) bool) {
 		b *base
 		s site
 	}
-	first := map[string]at{}
+	// positions per field: one for keys, codes, uuids and dates; for the short
+	// enumerated lists (country, currency, unit) up to three, in documents of
+	// different regimes, because what the library accepts there depends on
+	// the regime
+	found := map[string][]at{}
 	var order []string
 	for _, b := range bases {
 		for _, s := range b.Sites {
@@ -2037,35 +2082,88 @@ func enumFields(yield func(MutCase) bool) {
 			if s.Ptr == "/doc/$regime" {
 				continue // changing the regime changes every rule at once; left to the random search
 			}
-			cur, ok := first[f]
+			want := 1
+			if c == "enum" {
+				want = 3
+			}
+			cur, ok := found[f]
 			if !ok {
 				order = append(order, f)
+				found[f] = []at{{b, s}}
+				continue
 			}
 			// a position that is present beats an absent one
-			if !ok || (!cur.s.Present && s.Present) {
-				first[f] = at{b, s}
+			if !cur[0].s.Present && s.Present {
+				found[f] = []at{{b, s}}
+				continue
+			}
+			if len(cur) < want && s.Present {
+				fresh := true
+				for _, a := range cur {
+					fresh = fresh && a.b.Regime != b.Regime
+				}
+				if fresh {
+					found[f] = append(cur, at{b, s})
+				}
 			}
 		}
 	}
 	idx := 0
 	for _, f := range order {
-		a := first[f]
-		vals := sweepValues(a.s.GoType)
-		if f == "tax.Regime.Country" {
-			loadPools()
-			vals = regimePool
+		for _, a := range found[f] {
+			vals := sweepValues(a.s.GoType)
+			if f == "tax.Regime.Country" {
+				loadPools()
+				vals = regimePool
+			}
+			for _, v := range vals {
+				idx++
+				if idx%vh.Cfg().Shards != vh.Cfg().Shard {
+					continue
+				}
+				kind := "leaf:sweep:" + a.s.GoType
+				if !a.s.Present {
+					kind = "leaf-new:sweep:" + a.s.GoType
+				}
+				if !yield(MutCase{Path: a.b.Path, Ops: []Op{{Op: "set", Ptr: a.s.Ptr, Value: jstr(v), Kind: kind}}}) {
+					return
+				}
+			}
 		}
-		for _, v := range vals {
-			idx++
-			if idx%vh.Cfg().Shards != vh.Cfg().Shard {
-				continue
+	}
+	// every tax identity of the corpus whose country belongs to a regime with
+	// alternative codes, under each of the other codes of that regime, as the
+	// customer of the first document that has one
+	var target *base
+	tptr := ""
+	for _, b := range bases {
+		for _, s := range b.Sites {
+			if target == nil && s.GoType == "tax.Identity" && s.Present && s.Ptr == "/doc/customer/tax_id" && b.Schema == "bill/invoice" {
+				target, tptr = b, s.Ptr
 			}
-			kind := "leaf:sweep:" + a.s.GoType
-			if !a.s.Present {
-				kind = "leaf-new:sweep:" + a.s.GoType
-			}
-			if !yield(MutCase{Path: a.b.Path, Ops: []Op{{Op: "set", Ptr: a.s.Ptr, Value: jstr(v), Kind: kind}}}) {
-				return
+		}
+	}
+	if target == nil {
+		return
+	}
+	for _, set := range regimeCodeSets() {
+		for _, raw := range allIdentities {
+			for _, c := range set {
+				v, old := relabel(raw, c)
+				in := false
+				for _, x := range set {
+					in = in || x == old
+				}
+				if !in || old == c {
+					continue
+				}
+				idx++
+				if idx%vh.Cfg().Shards != vh.Cfg().Shard {
+					continue
+				}
+				if !yield(MutCase{Path: target.Path, Ops: []Op{{Op: "set", Ptr: tptr, Value: v, Kind: "struct:relabel:tax.Identity"}}}) {
+					return
+				}
 			}
 		}
 	}
@@ -2173,7 +2271,7 @@ func init() {
 			"Violation signature: schema-rejects:<schema short name>:<keyword>:<instance path with indices as *>. "+
 			"Non-trivial (`mutations`, `fields`): the case was kept and, according to the published schema files read as data (following $ref, allOf, properties, patternProperties, items and the $schema of embedded objects), at least one edited position is governed by pattern, enum/const (incl. oneOf/anyOf of consts), an asserted format, or - for members added or removed - the parent's `required`. `corpus` / `definitions`: the document passed the library's validation and was put to the validator; `schemas`: the file exists.",
 		"format is asserted only for date, uuid, date-time (RFC 3339 / RFC 4122 syntax); uri, email and other formats are annotations",
-		"Python re semantics are used for `pattern` (ASCII-only inputs are generated inside patterned members except where stated, so \\d / $ differences between Python, RE2 and ECMA 262 do not matter)",
+		"Python re semantics are used for `pattern`; the published patterns consist of literal character classes, anchors and quantifiers only, on which Python re, Go regexp and ECMA 262 agree (Python's `$` also matches before a final newline, which can only make the referee more lenient)",
 		"a crash of Calculate/Validate on a mutated document is C14's subject and is counted as a discarded case here",
 		"by construction the generators do not produce the zero date 0000-00-00 nor the alternative regime codes GR/XI/XU as $regime (known findings with witnesses in findings/)",
 	)
